@@ -351,6 +351,17 @@ func main() {
 				fmt.Fprintf(&b, "%s\t%s\t%s\n", l, si[i], m)
 			}
 			os.WriteFile(path, []byte(b.String()), 0644)
+			// the unshrunk sequence, for diagnosis (what the generator really produced)
+			var fb strings.Builder
+			fmt.Fprintf(&fb, "# unshrunk sequence of %s\n", path)
+			for i, l := range lines {
+				m := ""
+				if i < len(model) {
+					m = model[i]
+				}
+				fmt.Fprintf(&fb, "%s\t%s\t%s\n", l, trunc(impl[i]), trunc(m))
+			}
+			os.WriteFile(path+".full", []byte(fb.String()), 0644)
 			res.Replays = append(res.Replays, path)
 			res.Mismatches = append(res.Mismatches, fmt.Sprintf("seq %d line %d: %q impl=%s model=%s", s, d, lines[d], trunc(impl[d]), trunc(model[min(d, len(model)-1)])))
 			// a broken tree makes most sequences disagree; three minimized replays per worker are
